@@ -3,7 +3,6 @@ package main
 import (
 	"fmt"
 	"go/token"
-
 )
 
 type intrinsicFn func(e *Engine, st *State, th *Thread, args []Value, pos token.Pos) Value
